@@ -936,6 +936,31 @@ func (*log).OffsetByKey
     ensures[greatest] l.opts.KeyIndex && err == nil ==> forall o int64 :: liveKey(l, key, o) ==> o <= ret0
 
 
+// ================================================================ durability typestate at the log level (C06, C05)
+// Clauses labelled sync_*: Sync / AutoSync / Close make the head segment's files durable (log before
+// index), the old head is durable before a new segment is created at rollover, rewritten segments
+// are durable before they are renamed into place.
+
+pred wOK(w *writer) := w != nil && wrOK(w.messages) && iwOK(w.items)
+pred wClean(w *writer) := !fsDirty[w.messages.Path] && !fsDirty[fPath[w.items.f]]
+
+// ASSUMED (I/O): opens or creates the head segment's files
+func openWriter
+    flags assumed
+    assigns fPath, fsExists, fsDirty, fsContent
+    ensures ret1 == nil ==> ret0 != nil && fresh(ret0) && wOK(ret0) && ret0.index != nil && ret0.reader != nil
+    ensures forall g *os.File :: !fresh(g) ==> fPath[g] == old(fPath[g])
+    ensures forall p string :: p != seg.Log && p != seg.Index ==> fsDirty[p] == old(fsDirty[p]) && fsExists[p] == old(fsExists[p]) && fsContent[p] == old(fsContent[p])
+
+func (*writer).Sync
+    flags noframe only_sync
+    requires[sync_ok] wOK(w)
+    assigns fsDirty
+    ensures[sync_clean] err == nil ==> wClean(w)
+    ensures[sync_frame] forall p string :: p != w.messages.Path && p != fPath[w.items.f] ==> fsDirty[p] == old(fsDirty[p])
+    // the log is durable before the index that points into it
+    assert[sync_order] !fsDirty[w.messages.Path] at call index.(*Writer).Sync 1
+
 // ================================================================ lock discipline of the remaining entry points (C08)
 // Units flagged `lockonly` carry ONLY the lock-discipline obligations: guarded accesses hold their
 // lock, no self-deadlock, every lock released on every path (callees without lock operations are
@@ -964,7 +989,9 @@ func (*reader).Close
     flags locks lockonly noframe
     requires[locks] rdLocksFree()
 func (*reader).Delete
-    flags locks lockonly noframe
+    flags locks only_locks only_sync noframe
+    requires[sync_src] rs != nil && !fsDirty[rs.Log] && !fsDirty[rs.Index]
+    assigns all
     requires[locks] rdLocksFree()
 func (*reader).ConsumeByKey
     flags locks lockonly noframe
@@ -973,10 +1000,14 @@ func (*reader).ConsumeByKey
     loop 1
       invariant[locks] rdLocksFree() && ixLocksFree()
 func (*writer).Publish
-    flags locks lockonly noframe
+    flags locks only_locks only_sync noframe
+    requires[sync_ok] wOK(w)
     requires[locks] ixLocksFree()
+    assigns fsDirty, fsContent, writerIndex.items, writerIndex.nextOffset, writerIndex.nextTime
+    ensures[sync_frame] forall p string :: p != w.messages.Path && p != fPath[w.items.f] ==> fsDirty[p] == old(fsDirty[p])
     loop 1
       invariant[locks] ixLocksFree()
+      invariant[sync]  wOK(w) && (forall p string :: p != w.messages.Path && p != fPath[w.items.f] ==> fsDirty[p] == old(fsDirty[p]))
 func (*writer).Close
     flags locks lockonly noframe
     requires[locks] rdLocksFree()
@@ -984,10 +1015,19 @@ func (*writer).ReopenReader
     flags locks lockonly noframe
     requires[locks] ixLocksFree()
 func (*writer).Delete
-    flags locks lockonly noframe
+    flags locks only_locks only_sync noframe
+    requires[sync_src] rs != nil && !fsDirty[rs.Log] && !fsDirty[rs.Index]
+    requires[sync_ok] wOK(w)
+    assigns all
     requires[locks] rdLocksFree() && ixLocksFree()
 func (*log).Publish
-    flags locks lockonly noframe
+    flags locks only_locks only_sync noframe
+    requires[sync_ok] !l.opts.Readonly ==> wOK(l.writer)
+    assigns all
+    ensures[sync_autosync] l.opts.AutoSync && !l.opts.Readonly && ret1 == nil ==> wClean(l.writer)
+    ensures[sync_ok] !l.opts.Readonly ==> wOK(l.writer)
+    // the old head is durable before the new segment's files are created
+    assert[sync_rollover] wClean(oldWriter) at call openWriter 1
     requires[locks] nolocks()
 func (*log).ConsumeByKey
     flags locks lockonly noframe
@@ -1000,7 +1040,9 @@ func (*log).Delete
     flags locks lockonly noframe
     requires[locks] nolocks()
 func (*log).delete
-    flags locks lockonly noframe
+    flags locks only_locks only_sync noframe
+    requires[sync_ok] wOK(l.writer)
+    assigns all
     requires[locks] held(&l.deleteMu) == 2 && held(&l.writerMu) == 0 && held(&l.readersMu) == 0 && rdLocksFree() && ixLocksFree()
     loop 1
       invariant[locks] held(&l.readersMu) == 2 && held(&l.deleteMu) == 2 && held(&l.writerMu) == 0
@@ -1015,7 +1057,10 @@ func (*log).Backup
     loop 1
       invariant[locks] held(&l.readersMu) == 1 && (forall a int :: a != &l.readersMu ==> heldAt(a) == 0)
 func (*log).Sync
-    flags locks lockonly noframe
+    flags locks only_locks only_sync noframe
+    requires[sync_ok] !l.opts.Readonly ==> wOK(l.writer)
+    assigns fsDirty, reader.index, reader.indexLastAccess
+    ensures[sync_clean] !l.opts.Readonly && ret1 == nil ==> wClean(l.writer)
     requires[locks] nolocks()
 func (*log).GC
     flags locks lockonly noframe
@@ -1023,7 +1068,10 @@ func (*log).GC
     loop 1
       invariant[locks] held(&l.readersMu) == 1 && (forall a int :: a != &l.readersMu ==> heldAt(a) == 0)
 func (*log).Close
-    flags locks lockonly noframe
+    flags locks only_locks only_sync noframe
+    requires[sync_ok] !l.opts.Readonly ==> wOK(l.writer)
+    assigns all
+    ensures[sync_clean] !l.opts.Readonly && ret0 == nil ==> !fsDirty[old(l.writer.messages.Path)] && !fsDirty[old(fPath[l.writer.items.f])]
     requires[locks] nolocks()
     loop 1
       invariant[locks] held(&l.readersMu) == 2 && (forall a int :: a != &l.readersMu ==> heldAt(a) == 0)
